@@ -21,6 +21,12 @@ KERNELS = [
       claims=[("Zoned::new(t, fixed(o)): offset == o, civil datetime == decomposition of t + o, instant unchanged", claim)],
       bounds=c02.B_TS, split=(0, {"quick": 32, "thorough": 128}), timeout=240),
 ]
+KERNELS.append(
+    K("c20::k_zoned_fixed_cmp", pre=lambda a: And(c02.valid_ts(a[0], a[1]), c02.off_ok(a[2]), c02.valid_ts(a[3], a[4]), c02.off_ok(a[5])),
+      claims=[("Zoned == / cmp / partial_cmp in any two fixed zones depend on the instants only",
+               lambda a, o: (lambda T1, T2: And(o.is_some, o.some[0].b == (T1 == T2), o.some[1].i == If(T1 < T2, -1, If(T1 > T2, 1, 0)), o.some[2].b))(
+                   a[0] * NS + a[1], a[3] * NS + a[4]))],
+      bounds={0: c02.B_TS[0], 1: c02.B_TS[1], 2: c02.B_TS[2], 3: c02.B_TS[0], 4: c02.B_TS[1], 5: c02.B_TS[2]}, timeout=240))
 # The other direction (a Zoned reached from a civil datetime in a fixed zone, `DateTime::to_zoned` /
 # `Offset::to_timestamp`): the instant is exact and stored in the unique normal form, so that the derived
 # ==, ordering and hash of the (second, nanosecond) pair depend on the instant only. Same kernels as C02.
